@@ -25,7 +25,7 @@ tvars == <<l, matched, bacc, table, config, ys, order, accL, accD, pc>>
 
 Clause(e, name, ok) == IF ok THEN TRUE ELSE PrintT(<<"REJECT", e.id, name>>)
 
-EmptyTable == [t |-> <<>>, data |-> <<>>, z |-> <<>>, lat |-> <<>>, lon |-> <<>>]
+EmptyTable == [t |-> <<>>, hastime |-> TRUE, data |-> <<>>, z |-> <<>>, lat |-> <<>>, lon |-> <<>>]
 TraceInit == /\ l = 1 /\ matched = {} /\ bacc = [L |-> <<>>, D |-> <<>>, tb |-> EmptyTable, cfg |-> <<>>]
              /\ table = EmptyTable /\ config = <<>> /\ ys = <<>> /\ order = <<>> /\ accL = <<>> /\ accD = <<>>
              /\ pc = "idle"
@@ -42,7 +42,7 @@ AxesOK(ent, ord) ==      \* collected data / time / depth / position equal the s
     LET cov == CoveredBy(<<ent.stream, ent.fn>>, ord)
         Same(arr, src) == src = <<>> \/ (Len(arr) = Len(src) /\ \A i \in cov : arr[i] = src[i])
     IN  /\ Same(ent.data, table.data[ent.stream])
-        /\ Same(ent.t, table.t)
+        /\ Same(ent.t, TimeOf(table))
         /\ Same(ent.z, table.z) /\ Same(ent.lat, table.lat) /\ Same(ent.lon, table.lon)
 
 Load(e) ==
@@ -70,12 +70,12 @@ Yield(e) ==
                 /\ Clause(e, "c05_ran",    e.ok = x.ok)
                 /\ Clause(e, "c05_flags",  (e.ok /\ x.ok) => e.flags = x.flags)
                 /\ Clause(e, "c05_arrays", /\ e.data = Pick(table.data[e.stream], S)
-                                           /\ e.t = Pick(table.t, S)
+                                           /\ e.t = Pick(TimeOf(table), S)
                                            /\ e.z = Pick(table.z, S)
                                            /\ e.lat = Pick(table.lat, S) /\ e.lon = Pick(table.lon, S))
-                /\ Clause(e, "c05_probe",  e.fn = "probe" /\ e.ok =>
+                /\ Clause(e, "c05_probe",  e.fn \in {"probe", "probe2"} /\ e.ok =>
                                                /\ e.probe.x = Pick(table.data[e.stream], x.subset)
-                                               /\ e.probe.t = Pick(table.t, x.subset)
+                                               /\ e.probe.t = Pick(TimeOf(table), x.subset)
                                                /\ e.probe.z = Pick(table.z, x.subset)
                                                /\ e.probe.lat = Pick(table.lat, x.subset)
                                                /\ e.probe.lon = Pick(table.lon, x.subset))
